@@ -26,7 +26,24 @@ let int_of_z = function Z0 -> 0 | Zpos p -> int_of_pos p | Zneg p -> - (int_of_p
 
 let split c s = if s = "" then [] else String.split_on_char c s
 let nat s = nat_of_int (int_of_string s)
-let zed s = z_of_int (int_of_string s)
+(* decimal string of any size -> Z (a mutated tree can expose uninitialised 64-bit cells that do not
+   fit OCaml's 63-bit int) *)
+let zed (s : string) : z =
+  let n = String.length s in
+  if n = 0 then failwith "empty number";
+  let neg = s.[0] = '-' in
+  let start = if neg then 1 else 0 in
+  if n - start <= 17 then z_of_int (int_of_string s)
+  else begin
+    let z10 = z_of_int 10 in
+    let acc = ref Z0 in
+    for i = start to n - 1 do
+      let d = Char.code s.[i] - 48 in
+      if d < 0 || d > 9 then failwith ("bad number " ^ s);
+      acc := Z.add (Z.mul !acc z10) (z_of_int d)
+    done;
+    if neg then Z.opp !acc else !acc
+  end
 
 let parse_row r = if r = "-" then [] else List.map zed (split ',' r)
 let parse_rows s : z list list = List.map parse_row (split '/' s)
@@ -97,7 +114,7 @@ let parse_mobs s =
          ob_ravel = (rav = "1");
          ob_cells = parse_rows contents },
        (int_of_string cap,
-        if String.length uni > 1 && uni.[0] = 'U' then Some (int_of_string (String.sub uni 1 (String.length uni - 1))) else None))
+        if String.length uni > 1 && uni.[0] = 'U' then Some (zed (String.sub uni 1 (String.length uni - 1))) else None))
   | _ -> raise (Bad ("bad-matrix-observation " ^ s))
 
 let parse_bits s = List.init (String.length s - 1) (fun i -> s.[i + 1] = '1')
@@ -346,7 +363,7 @@ let () =
                                       (* C19_fill: fill() writes every storage cell, padding included *)
                                       let m = List.nth sregs' (int_of_nat d) in
                                       List.exists (fun x -> x <> v) (z_ravel m.sd)
-                                      || (m.sd <> [] && int_of_nat s > 0 && snd (List.nth caps (int_of_nat d)) <> Some (int_of_z v))
+                                      || (m.sd <> [] && int_of_nat s > 0 && snd (List.nth caps (int_of_nat d)) <> Some v)
                                   | _ -> false)
                          then set_v (Printf.sprintf "DIFF op%d fill-left-storage-cells-unwritten" idx)
                          else walk sregs' orest prest (S k) (idx + 1)
